@@ -241,6 +241,7 @@ def plan_runs(rng, pkg):
 def run(ctx):
     ctx.prove(["Props/C06.vo", "Run/eval_C06.vo"], extra_props=["Compose_C06_C04"])   # + composition C06 => C04 (template data built from declarations)
     import extractlib; extractlib.tables_tie(ctx, ['parse.argTypes'])   # literal data of the source re-proved equal to the models' (DESIGN 3.5)
+    extractlib.fn_tie(ctx, ['toOneLine'])   # pure functions translated from the current source, re-proved equal to the models' (tools/notes/Translator.md)
     ctx.trusted_base += [
         "checks/c06.py + lib/c06gen.py (declaration generator, renderer to Go files, printer to Coq terms, output parsers, oracle)",
         "lib/projlib.py (project layout, probe package, CALL parser), harness/docview (go/parser + go/doc only)",
